@@ -189,12 +189,12 @@ static void add_predefine (char *, int, char *);
 static int expand_define (void);
 static void add_input (const char *);
 static int cond_get_exp (int);
-static void inc_lexically_normal (const char* abs_base, const char *name, char *dest);
+static int inc_lexically_normal (const char* abs_base, const char *name, char *dest, size_t size);
 static void add_quoted_predefine (char *, char *);
 static void lexerror (char *);
 static int skip_to (char *, char *);
 static void handle_cond (int);
-static int inc_open (char *, const char *);
+static int inc_open (char *, size_t, const char *);
 static void handle_include (const char *, int);
 static int get_terminator (char *);
 static int get_array_block (char *);
@@ -213,64 +213,71 @@ static void yyerrorp (char *);
 #define LEXER
 #include "preprocess.c"
 
-static void inc_lexically_normal (const char* abs_base, const char *name, char *dest) {
+/**
+ * @brief Resolve the name of an #include against the directory of the including file.
+ *
+ * The name is taken apart component by component: empty components ("//") and "." are
+ * skipped, ".." removes the last component of what has been built so far. The result never
+ * holds a "." or ".." component and never starts with '/'.
+ * @param abs_base Name of the including file (relative to the mudlib directory).
+ * @param name Argument of the #include directive.
+ * @param dest Receives the resolved path.
+ * @param size Size of dest.
+ * @return 1 on success, 0 if the name leads above the mudlib directory or does not fit in dest.
+ */
+static int inc_lexically_normal (const char* abs_base, const char *name, char *dest, size_t size) {
   char* slash;
-  const char *from;
+  const char *from, *end;
+  size_t len, n;
 
-  strcpy (dest, abs_base);
-  if ((slash = strrchr (dest, '/')))	/* strip filename */
-    *slash = 0;
-  else
-    /* current_file was the file_name */
-    /* include from the root directory */
-    *dest = 0;
-
-  from = name;
-  while (*from == '/')
+  *dest = 0;
+  if (*name != '/' && (slash = strrchr (abs_base, '/')))
     {
-      from++;
-      *dest = 0;		/* absolute path */
+      /* start in the directory of the including file (a file in the root directory has none) */
+      len = slash - abs_base;
+      if (len >= size)
+        return 0;
+      memcpy (dest, abs_base, len);
+      dest[len] = 0;
     }
+  len = strlen (dest);
 
-  /* process .. and . in the include header name */
-  while (*from)
+  for (from = name; *from; from = end)
     {
-      if (!strncmp (from, "../", 3))
+      while (*from == '/')
+        from++;
+      for (end = from; *end && *end != '/'; end++);
+      n = end - from;
+
+      if (n == 0 || (n == 1 && from[0] == '.'))
+        continue;
+      if (n == 2 && from[0] == '.' && from[1] == '.')
         {
-          if (*dest == 0)	/* including from above mudlib is NOT allowed */
-            break;
+          if (len == 0)		/* including from above mudlib is NOT allowed */
+            {
+              *dest = 0;
+              return 0;
+            }
           slash = strrchr (dest, '/');
           if (slash == NULL)	/* 1 component in dest */
             *dest = 0;
           else
             *slash = 0;
-          from += 3;		/* skip "../" */
+          len = strlen (dest);
+          continue;
         }
-      else if (!strncmp (from, "./", 2))
+      if (len + (len ? 1 : 0) + n >= size)
         {
-          from += 2;
+          *dest = 0;
+          return 0;
         }
-      else
-        {			/* append first component to dest */
-          if (*dest)
-            strcat (dest, "/");	/* only if dest is not empty !! */
-          slash = strchr (from, '/');
-
-          if (slash)
-            {			/* from has 2 or more components */
-              while (*from == '/')	/* find the start */
-                from++;
-              strncat (dest, from, slash - from);
-              for (from = slash + 1; *from == '/'; from++);
-            }
-          else
-            {
-              /* this was the last component */
-              strcat (dest, from);
-              break;
-            }
-        }
+      if (len)
+        dest[len++] = '/';	/* only if dest is not empty !! */
+      memcpy (dest + len, from, n);
+      len += n;
+      dest[len] = 0;
     }
+  return 1;
 }
 
 static void yyerrorp (char *s) {
@@ -374,17 +381,18 @@ static int skip_to (char *token, char *atoken)
 /**
  * @brief Try to open an include file.
  * @param buf Buffer to store the normalized path.
+ * @param size Size of buf.
  * @param name Argument of the #include directive.
  *             If it contains dot or dot-dot in the path, it is normalized using current_file as the base.
  * @return File descriptor, or -1 on failure.
  */
-static int inc_open (char *buf, const char *name) {
+static int inc_open (char *buf, size_t size, const char *name) {
 
   int i, fd;
   char *p;
 
-  inc_lexically_normal (current_file, name, buf);
-  if ((fd = FILE_OPEN (buf, O_RDONLY)) != -1)
+  if (inc_lexically_normal (current_file, name, buf, size) && *buf
+      && (fd = FILE_OPEN (buf, O_RDONLY)) != -1)
     {
       opt_trace (TT_COMPILE|3, "opened (fd %d): \"%s\"", fd, buf);
       return fd;
@@ -403,7 +411,8 @@ static int inc_open (char *buf, const char *name) {
         break;
       if (inc_list[i] == 0)
         continue;
-      sprintf (buf, "%s/%s", inc_list[i], name);
+      if (snprintf (buf, size, "%s/%s", inc_list[i], name) >= (int) size)
+        continue;
       if ((fd = FILE_OPEN (buf, O_RDONLY)) != -1)
         {
           opt_trace (TT_COMPILE|3, "opened (fd %d): \"%s\"", fd, buf);
@@ -474,7 +483,7 @@ static void handle_include (const char *inc_name, int optional) {
     {
       include_error ("Maximum include depth exceeded");
     }
-  else if ((fd = inc_open (buf, name)) != -1) /* open header file */
+  else if ((fd = inc_open (buf, sizeof (buf), name)) != -1) /* open header file */
     {
       is = ALLOCATE (incstate_t, TAG_COMPILER, "handle_include: 1");
       is->yyin_desc = yyin_desc;
